@@ -211,9 +211,19 @@ impl Monitor for C19 {
         "cases = (source address, destination address, source port, destination port) tuples - pairwise distinct components in general, but also semantically special addresses (IPv4-mapped / -compatible, link-local with an embedded zone, multicast, NAT64, 6to4, loopback; both endpoints from the same class half of the time) and completely identical endpoints (1 in 32) -, boundary x boundary and random, for IPv4 and IPv6 (IPv6 with random flow-info and scope-id on the socket addresses), passed through every Into source the constructors accept ([u8;4], u32, Ipv4Addr; [u8;16], [u16;8], u128, Ipv6Addr), IPv4::new / IPv6::new / Addresses::new_tcp4 / new_tcp6 / Unix::new, From<IPv4|IPv6|Unix> and From<(SocketAddr, SocketAddr)> in both protocol versions including mixed-family pairs; public fields and variants are compared with the arguments; non-trivial = source != destination and source port != destination port; distinct = distinct tuples"
     }
     fn streams(&self, tier: Tier) -> Vec<StreamSpec> {
-        vec![stream("c19-v4", tier.n(50, 1_000_000, 25_000_000)), stream("c19-v6", tier.n(50, 1_000_000, 25_000_000))]
+        vec![stream("c19-v4", tier.n(50, 1_000_000, 25_000_000)), stream("c19-v6", tier.n(50, 1_000_000, 25_000_000)), spec::engine::exhaustive("calling-context", 2)]
     }
     fn run_case(&self, stream: &str, idx: u64, seed: u64, rec: &mut Recorder) {
+        if stream == "calling-context" {
+            // the same calls from an ordinary place, a second time, and from a thread-local
+            // destructor at thread exit (pure functions do not depend on where they are called)
+            let _ = (idx, seed);
+            if spec::engine::layer().starts_with("miri") {
+                return;
+            }
+            crate::adapt::judge_context(&["C19"], rec);
+            return;
+        }
         let mut rng = Rng::for_case(seed, stream_id(stream), idx);
         let rng = &mut rng;
         let (sp, dp) = rand_port_pair(rng);
